@@ -231,10 +231,11 @@ func runC03(c *fw.Ctx) {
 		// pass 2: every pair of ranges (+ optionally one key), on fixed tables
 		fixed := [][]string{c03Keys, {"a", "a\x00\x00", "b", "\xff"}, {"a\x00", "ab"}}
 		pairLimits := []int64{0, 2}
-		pairKeys := []int{-1}
+		allKeys := []int{-1, 0, 1, 2, 3, 4, 5, 6}
+		pairKeys := allKeys
 		sub := ranges
-		if !c.Thorough() {
-			// quick: pairs over the 4-key sub-universe {a, a\x00, ab, b} (9 bounds -> 81 ranges -> 6561 pairs)
+		if !c.Thorough() && eng != "btree" {
+			// quick, leveldb engines: pairs over the 4-key sub-universe {a, a\x00, ab, b} (9 bounds -> 81 ranges -> 6561 pairs)
 			sub = nil
 			for _, r := range ranges {
 				ok := func(b []byte) bool {
@@ -245,15 +246,16 @@ func runC03(c *fw.Ctx) {
 					sub = append(sub, r)
 				}
 			}
+		}
+		if !c.Thorough() {
 			fixed = fixed[:2]
 		} else {
 			pairLimits = limits
-			pairKeys = []int{-1, 1, 4}
 		}
 		if eng == "disk" {
 			fixed = fixed[:1]
 			pairLimits = []int64{0, 2}
-			pairKeys = []int{-1}
+			pairKeys = []int{-1, 1, 4}
 		}
 		for ti, content := range fixed {
 			// split the pair space of one table over shards by the first range
